@@ -663,6 +663,13 @@ impl HistExec {
                         c.arg("-d").arg("--no-module-path");
                     }
                     c.stdin(std::process::Stdio::null()).stdout(std::process::Stdio::null()).stderr(std::process::Stdio::null());
+                    unsafe {
+                        use std::os::unix::process::CommandExt;
+                        c.pre_exec(|| {
+                            libc::personality(libc::ADDR_NO_RANDOMIZE as libc::c_ulong);
+                            Ok(())
+                        });
+                    }
                     // sometimes a standard error that cannot be written (full disk behind a
                     // redirected log): a failure must still be a failure.  Only without logging
                     // flags — a logger that cannot log is allowed to complain.
